@@ -212,6 +212,8 @@ def c10(ctx):
     edit_replay(ctx, "bytes", "C10")          # every byte < 0x80 and multi-byte UTF-8 as key and as value
     edit_replay(ctx, "bytepos", "C10")        # every byte < 0x80 at every position 0..17 of a padded string; pairs of escapes
     edit_replay(ctx, "nonfinite", "C10")      # SetFloat(NaN / +Inf / -Inf): marshalling must fail
+    # nesting deeper than any fixed-size bookkeeping, as single document and inside NDJSON, from root / per-root / inner iterators
+    ctx.vh(["v-deepmarshal", "-property", "C10"] + ([] if quick(ctx) else ["-full"]), timeout=3000)
     if not quick(ctx):
         edit_replay(ctx, "set_t", "C10")
     ctx.exhaustive = True
